@@ -113,6 +113,7 @@ func lockScenarios(quick bool) []*scenario {
 		mk("write and deregistration, a subscriber that reconnects", []write{{op: cmdlib.RegService(n2, a2)}, {op: cmdlib.DeregService("n1", "a1", "")}}, []subject{hA}, [][]string{{aSub, aDisc, aSub}}),
 		mk("token change between writes", []write{{op: cmdlib.RegService(n1, a1p)}, aclWrite, {op: cmdlib.RegService(n2, a2)}}, []subject{hA}, [][]string{{aSub}}),
 		mk("restore after a write", []write{{op: cmdlib.RegService(n1, a1p)}, {restore: true}}, []subject{hA}, [][]string{{aSub}}),
+		mk("restore of the seed state's snapshot after two writes", []write{{op: cmdlib.RegService(n1, a1p)}, {op: cmdlib.RegService(n2, a2)}, {restore: true, old: true}}, []subject{hA}, [][]string{{aSub}}),
 		mk("resolver written and deleted", []write{{op: cmdlib.Resolver(svcName, cmdlib.ResolverOpt{Subsets: []string{"v1"}}).Upsert()}, {op: cmdlib.Resolver(svcName, cmdlib.ResolverOpt{}).Delete()}}, []subject{rA}, [][]string{{aSub}}),
 	}
 	if !quick {
